@@ -92,7 +92,7 @@ class Feed:
         self.table = e4lib.feed2table(self.bytes, LAT0, LON0)
         # two-phase feed for the expiry variant
         self.part1 = b''.join(self.lines[0:6])       # N1, N2
-        self.part2 = b''.join(self.lines[6:15])      # S1, S2, E1
+        self.part2 = b''.join(self.lines[6:15] + self.lines[0:3])      # S1, S2, E1 - and N1 again (added a second time)
         self.t1 = e4lib.feed2table(self.part1, LAT0, LON0)
         self.t2 = e4lib.feed2table(self.part2, LAT0, LON0)
         # traffic that arrives AFTER the view controls were used: its data must not depend on the view
@@ -170,15 +170,31 @@ def compile_script(fd, kind, cfg, seq, delivery, alphabet, filler=True, touchscr
         argv.append('--filter-time=1')
         steps.append({'op': 'lines', 'hex': hexs(fd.part1), 'n': 6})
         steps.append({'op': 'age', 'ms': 1600})
-        steps.append({'op': 'lines', 'hex': hexs(fd.part2), 'n': 9})
+        steps.append({'op': 'lines', 'hex': hexs(fd.part2), 'n': 12})
         # keep the second-phase aircraft alive while the screens are read (message counts are not compared here)
         steps.append({'op': 'filler', 'on': True,
-                      'cycle': [hexs(b'*5dab3d17d4ba29;\n')] + [hexs(fd.lines[i]) for i in (6, 9, 12)]})
+                      'cycle': [hexs(b'*5dab3d17d4ba29;\n')] + [hexs(fd.lines[i]) for i in (6, 9, 12, 0)]})
         e2 = expect_of(fd.t2)
         expect = {'rows': None, 'n': e2['n'], 'icaos': [r['icao'] for r in e2['rows']],
                   'added': fd.t1['added_events'] + fd.t2['added_events'],
                   'most': max(fd.t1['max_simultaneous'], fd.t2['max_simultaneous'])}
-        labels = ['S1', 'S2', 'E1']
+        labels = ['S1', 'S2', 'E1', 'N1']
+    elif kind == 'expiry-silent':
+        # aircraft expire while the feed is connected but silent and the operator does nothing: the Airplanes tab,
+        # already showing, must lose them without any further input
+        argv.append('--filter-time=1')
+        steps.append({'op': 'lines', 'hex': hexs(fd.part1), 'n': 6})
+        steps += [key_step(KEYS['F3'], ['F3']), {'op': 'sync', 'n': 2}, {'op': 'snap', 'name': 'air_before'},
+                  {'op': 'filler', 'on': False}, {'op': 'age', 'ms': 1600}, {'op': 'sync', 'n': 2}, {'op': 'snap', 'name': 'air0'},
+                  key_step(KEYS['F4'], ['F4']), {'op': 'sync', 'n': 2}, {'op': 'snap', 'name': 'stats0'},
+                  key_step(KEYS['F1'], ['F1']), {'op': 'sync', 'n': 2}, {'op': 'snap', 'name': 'map0'},
+                  {'op': 'quit', 'hex': '71', 'letters': ['q']}]
+        expect = {'rows': [], 'n': 0, 'added': fd.t1['added_events'], 'most': fd.t1['max_simultaneous']}
+        key = 'radar|%dx%d|scale=%s|feed=expiry-silent|nofiller|separated|view=none%s' % (cols, rows, scale, fd.rx_tag)
+        return {'binary': 'radar', 'oracle': 'c18', 'key': key, 'argv': argv, 'size': [cols, rows], 'filler': True,
+                'steps': steps, 'kind': 'expiry', 'labels': [], 'expect': expect, 'expect_after': None, 'geom_late': None,
+                'events': [], 'touchscreen': False, 'geom': {},
+                'expected': 'after 1.6 s of silence (filter time 1 s) the Airplanes tab shows Airplanes(0) and no rows although nothing was sent or pressed'}
     else:
         raise ValueError(kind)
     s3 = {'op': 'sync', 'n': 2}
@@ -487,6 +503,7 @@ def enumerate_scripts(tier, fd, fd_mer=None):
             for seq in [()] + [(a,) for a in names]:
                 out.append(compile_script(fd, kind, cfg, seq, 'separated', VIEW, filler=False))
         out.append(compile_script(fd, 'expiry', cfg, (), 'separated', VIEW))
+        out.append(compile_script(fd, 'expiry-silent', cfg, (), 'separated', VIEW))
     parts['controls without pacing filler (depth<=1) + expiry variant (Total != Most)'] = len(out) - n0
     n0 = len(out)
     for nsm in (1, 2, 3):
